@@ -135,8 +135,14 @@ Section Instance.
 
   Lemma pure_output_admissible x : pure_st (output_admissible orc x).
   Proof. unfold output_admissible. pure_tac. Qed.
+  (* add_output / fee_for_output first refuse a value with empty entries (Builder/Change.v output_acceptable) *)
+  Lemma pure_output_acceptable x : pure_st (output_acceptable orc x).
+  Proof.
+    unfold output_acceptable. destruct (Num.ValueNorm.value_has_empty_entries (o_amount x));
+      [apply pure_lift | apply pure_output_admissible].
+  Qed.
   Lemma pure_fee_for_output x : pure_st (fee_for_output orc x).
-  Proof. unfold fee_for_output. pure_tac; try apply pure_output_admissible. Qed.
+  Proof. unfold fee_for_output. pure_tac; try apply pure_output_acceptable. Qed.
   Lemma pure_min_fee_pub : pure_st (min_fee_pub orc).
   Proof. unfold min_fee_pub. pure_tac. Qed.
   Lemma pure_unwrap_ma m : pure_st (@unwrap_ma O m).
@@ -197,12 +203,19 @@ Section Instance.
     unfold value_too_big_c in Big. apply N.ltb_ge in Big. apply N.leb_le. exact Big.
   Qed.
 
+  Lemma output_acceptable_ok P x :
+    hoare J0 P (output_acceptable orc x) (fun _ s => P s /\ out_ok e x = true).
+  Proof.
+    unfold output_acceptable. destruct (Num.ValueNorm.value_has_empty_entries (o_amount x));
+      [apply hoare_fail; discriminate | apply output_admissible_ok].
+  Qed.
+
   Lemma all_ok_app s l : all_ok e s -> forallb (out_ok e) l = true -> all_ok e (set_s_outputs (s_outputs s ++ l) s).
   Proof. unfold all_ok. cbn [set_s_outputs s_outputs]. intros A B. rewrite forallb_app, A, B. reflexivity. Qed.
 
   Lemma add_output_ok x : hoare J0 (all_ok e) (add_output orc x) (fun _ s => all_ok e s).
   Proof.
-    unfold add_output. eapply hoare_bind; [apply output_admissible_ok|]. intros ?. cbn beta.
+    unfold add_output. eapply hoare_bind; [apply output_acceptable_ok|]. intros ?. cbn beta.
     apply hoare_modify. intros s _ [A B]. split; [exact I|]. apply all_ok_app; [exact A|]. cbn [forallb]. rewrite B. reflexivity.
   Qed.
 
